@@ -759,3 +759,140 @@ Proof.
     match goal with |- first_nonzero [_; (if ?b then _ else _); _] = 0 => replace b with true; [reflexivity|symmetry] end.
     exact (adv_due_live k nd s (repeat dt (Z.to_nat n)) po o code0 I S V V').
 Qed.
+
+(** *** the C04 monitor on one model state *)
+Lemma sum_where_eq k o pred d (Pf : cid -> option cobs) : o_contracts o = map Pf (k_ids k) ->
+  sum_where k o pred d
+  = zsum (map (fun id => match Pf id with Some c' => if pred c' then amt_of (id_amount id) d else 0 | None => 0 end) (k_ids k)).
+Proof.
+  intros Hc. unfold sum_where. rewrite Hc.
+  assert (G : forall l a0,
+    fold3 (fun (id : cid) (c : option cobs) (_ : unit) (acc : Z) =>
+             match c with Some c' => if pred c' then acc + amt_of (id_amount id) d else acc | None => acc end)
+          l (map Pf l) (map (fun _ : cid => tt) l) a0
+    = a0 + zsum (map (fun id => match Pf id with Some c' => if pred c' then amt_of (id_amount id) d else 0 | None => 0 end) l)).
+  { induction l as [|id l IH]; intros a0; simpl; [lia|].
+    destruct (Pf id) as [c'|]; [destruct (pred c')|]; rewrite IH; lia. }
+  rewrite G. lia.
+Qed.
+
+Definition wci (d : denom) (c : contract) : Z := if complb c && is_in c then amt c d else 0.
+Definition wco (d : denom) (c : contract) : Z := if complb c && is_out c then amt c d else 0.
+
+Lemma w_cur_split d c : w_cur d c = wci d c - wco d c.
+Proof.
+  unfold w_cur, wci, wco, is_in, is_out. destruct (complb c), (c_transfer c), (c_dir c); simpl; lia.
+Qed.
+
+Section SumWhere.
+  Context (k : case) (nd : nat) (s : state) (code : Z) (o : obs) (I : Inv s) (T : Tbl k s) (V : Vw k nd s code o).
+
+  Lemma sum_where_wsum (pred : cobs -> bool) (w : denom -> contract -> Z) d :
+    (forall c, (if pred (proj_contract c) then amt c d else 0) = w d c) ->
+    sum_where k o pred d = wsum (w d) (st_contracts s).
+  Proof.
+    intros Hw. rewrite (sum_where_eq k o pred d (Pof s)) by (rewrite (vw_contracts _ _ _ _ _ V); reflexivity).
+    rewrite <- (table_sum (fun id oc => match oc with Some c => if pred (proj_contract c) then amt_of (id_amount id) d else 0 | None => 0 end)
+                          (w d) (k_ids k) (tb_nodup _ _ T) (fun _ : cid => eq_refl) (st_contracts s) (inv_keys _ I)).
+    - apply zsum_map_ext. intros id _. unfold Pof. destruct (get id (st_contracts s)); reflexivity.
+    - intros id c Hin. destruct (In_get _ _ _ Hin) as (c' & Hg). split; [exact (tb_complete _ _ T _ _ Hg)|].
+      destruct (id_fields _ _ _ (inv_wfc _ I _ _ Hin)) as (_ & _ & _ & Ha). rewrite Ha. exact (Hw c).
+  Qed.
+
+  Lemma sw_esc d : sum_where k o (fun c => is_open c && locks c) d = wsum (w_esc d) (st_contracts s).
+  Proof.
+    apply sum_where_wsum. intros c. rewrite locks_proj. unfold w_esc, is_open, openb, proj_contract, c_state_of.
+    destruct (c_state c); reflexivity.
+  Qed.
+
+  Lemma sw_in d : sum_where k o (fun c => is_open c && (c_tr_of c =? 1) && (c_dir_of c =? 1)) d = wsum (w_in d) (st_contracts s).
+  Proof.
+    apply sum_where_wsum. intros c. unfold w_in, is_open, openb, is_in, proj_contract, c_state_of, c_tr_of, c_dir_of.
+    destruct (c_state c), (c_transfer c), (c_dir c); reflexivity.
+  Qed.
+
+  Lemma sw_out d : sum_where k o (fun c => is_open c && (c_tr_of c =? 1) && (c_dir_of c =? 2)) d = wsum (w_out d) (st_contracts s).
+  Proof.
+    apply sum_where_wsum. intros c. unfold w_out, is_open, openb, is_out, proj_contract, c_state_of, c_tr_of, c_dir_of.
+    destruct (c_state c), (c_transfer c), (c_dir c); reflexivity.
+  Qed.
+
+  Lemma sw_ci d : sum_where k o (fun c => (c_state_of c =? 1) && (c_tr_of c =? 1) && (c_dir_of c =? 1)) d = wsum (wci d) (st_contracts s).
+  Proof.
+    apply sum_where_wsum. intros c. unfold wci, complb, is_in, proj_contract, c_state_of, c_tr_of, c_dir_of.
+    destruct (c_state c), (c_transfer c), (c_dir c); reflexivity.
+  Qed.
+
+  Lemma sw_co d : sum_where k o (fun c => (c_state_of c =? 1) && (c_tr_of c =? 1) && (c_dir_of c =? 2)) d = wsum (wco d) (st_contracts s).
+  Proof.
+    apply sum_where_wsum. intros c. unfold wco, complb, is_out, proj_contract, c_state_of, c_tr_of, c_dir_of.
+    destruct (c_state c), (c_transfer c), (c_dir c); reflexivity.
+  Qed.
+End SumWhere.
+
+(** the monitor's window bookkeeping agrees with the model's, for the time-limited assets *)
+Definition WsRel (k : case) (s : state) (ws : list (Z * Z)) : Prop :=
+  forall p w, In (p, w) (combine (k_params k) ws) -> ap_tl p = true ->
+    option_map as_el (get (ap_denom p) (st_assets s)) = Some (fst w) /\ snd w = sup_of (st_win s) (ap_denom p).
+
+Lemma In_combine4 {P S B W} (FS : P -> S) (FB : P -> B) : forall (l : list P) (ws : list W) x,
+  In x (combine (combine (combine l (map FS l)) (map FB l)) ws) ->
+  exists p w, In p l /\ In (p, w) (combine l ws) /\ x = (p, FS p, FB p, w).
+Proof.
+  induction l as [|p l IH]; intros ws x Hin; simpl in Hin; [destruct Hin|].
+  destruct ws as [|w ws]; [destruct Hin|]. simpl in Hin. destruct Hin as [E|Hin].
+  - exists p, w. split; [left; reflexivity|]. split; [left; reflexivity|]. symmetry. exact E.
+  - destruct (IH ws x Hin) as (p' & w' & H1 & H2 & H3). exists p', w'. split; [right; exact H1|]. split; [right; exact H2|exact H3].
+Qed.
+
+Lemma p04_state k nd s code o ws : Inv s -> Tbl k s -> Vw k nd s code o -> WsRel k s ws -> p04 k o ws = 0.
+Proof.
+  intros I T V WR. pose proof (Inv_C04_of_Inv s I) as [Hesc Hasset].
+  assert (Hd : denoms_of o = zseq nd) by (unfold denoms_of; rewrite (vw_bals _ _ _ _ _ V), mat_hd_length; reflexivity).
+  assert (Hrow : nthZ (k_nactors k) (o_bals o) = Some (map (fun d => bal (st_bank s) ESC d) (zseq nd))).
+  { rewrite (vw_bals _ _ _ _ _ V). unfold mat. rewrite nthZ_map. unfold nthZ.
+    destruct (tb_nact _ _ T) as [H0 H1]. replace (k_nactors k <? 0) with false by (symmetry; apply Z.ltb_ge; exact H0).
+    pose proof (accounts_nth k ESC (tb_nact _ _ T) (ESC_party k)) as Hn. unfold row_index in Hn. rewrite Z.eqb_refl in Hn.
+    rewrite Hn. reflexivity. }
+  assert (Hper : forall f : aparam -> (Z * Z * Z * Z * Z) -> Z -> Z * Z -> bool,
+            (forall p w a, In p (k_params k) -> In (p, w) (combine (k_params k) ws) ->
+                           get (ap_denom p) (st_assets s) = Some a ->
+                           f p (as_in a, as_out a, as_cur a, as_tlc a, as_el a) (sup_of (st_supply s) (ap_denom p)) w = true) ->
+            forallb (fun x : aparam * option (Z * Z * Z * Z * Z) * Z * (Z * Z) =>
+                       let '(p, s0, b, w) := x in match s0 with Some s' => f p s' b w | None => false end)
+                    (combine (combine (combine (k_params k) (o_sups o)) (o_bsups o)) ws) = true).
+  { intros f Hf. rewrite (vw_sups _ _ _ _ _ V), (vw_bsups _ _ _ _ _ V). unfold sproj_assets, bsproj.
+    apply forallb_forall. intros x Hx. destruct (In_combine4 _ _ _ _ _ Hx) as (p & w & Hp & Hpw & ->).
+    assert (Hgp : get_param (st_params s) (ap_denom p) = Some p)
+      by (rewrite (tb_params _ _ T); exact (get_param_NoDup _ _ (tb_pden _ _ T) Hp)).
+    destruct (inv_asset _ I _ _ Hgp) as (a & Ha & _). rewrite Ha. simpl. exact (Hf p w a Hp Hpw Ha). }
+  unfold p04. rewrite Hrow, Hd.
+  replace (eqb (map (fun d => bal (st_bank s) ESC d) (zseq nd))
+               (map (fun d => sum_where k o (fun c => is_open c && locks c) d) (zseq nd))) with true.
+  2:{ symmetry. apply eqb_true_iff. apply map_ext. intros d. rewrite (sw_esc k nd s code o I T V d). exact (Hesc d). }
+  cbn [negb].
+  rewrite Hper.
+  2:{ intros p w a Hp Hpw Ha.
+      assert (Hgp : get_param (st_params s) (ap_denom p) = Some p)
+        by (rewrite (tb_params _ _ T); exact (get_param_NoDup _ _ (tb_pden _ _ T) Hp)).
+      destruct (Hasset _ _ Hgp) as (a0 & Ha0 & Hin & Hout & _). rewrite Ha in Ha0. inversion Ha0; subst a0.
+      rewrite (sw_in k nd s code o I T V), (sw_out k nd s code o I T V), <- Hin, <- Hout, !Z.eqb_refl. reflexivity. }
+  cbn [negb].
+  rewrite Hper.
+  2:{ intros p w a Hp Hpw Ha.
+      assert (Hgp : get_param (st_params s) (ap_denom p) = Some p)
+        by (rewrite (tb_params _ _ T); exact (get_param_NoDup _ _ (tb_pden _ _ T) Hp)).
+      destruct (Hasset _ _ Hgp) as (a0 & Ha0 & _ & _ & Hcur & Hsup & _). rewrite Ha in Ha0. inversion Ha0; subst a0.
+      rewrite (sw_ci k nd s code o I T V), (sw_co k nd s code o I T V), <- wsum_sub.
+      rewrite <- (wsum_ext (w_cur (ap_denom p)) _ _ (fun _ c _ => w_cur_split (ap_denom p) c)).
+      rewrite Hsup, <- Hcur, !Z.eqb_refl. reflexivity. }
+  cbn [negb].
+  rewrite Hper; [reflexivity|].
+  intros p w a Hp Hpw Ha.
+  assert (Hgp : get_param (st_params s) (ap_denom p) = Some p)
+    by (rewrite (tb_params _ _ T); exact (get_param_NoDup _ _ (tb_pden _ _ T) Hp)).
+  destruct (Hasset _ _ Hgp) as (a0 & Ha0 & _ & _ & _ & _ & Hlim & Hoc & Htl). rewrite Ha in Ha0. inversion Ha0; subst a0.
+  apply andb_true_iff. split; [apply andb_true_iff; split; [apply andb_true_iff; split|]|]; try (apply Z.leb_le; lia).
+  destruct (ap_tl p) eqn:Etl; [|reflexivity]. cbn. destruct (Htl eq_refl) as (_ & _ & Hw).
+  destruct (WR p w Hpw Etl) as [_ Hsw]. rewrite Hsw. apply Z.leb_le. exact Hw.
+Qed.
